@@ -1230,7 +1230,11 @@ class TransferFunction(LTI):
         if method == "matched":
             if prewarp_frequency is not None:
                 warn('prewarp_frequency ignored: incompatible conversion')
-            return _c2d_matched(self, Ts, name=name, **kwargs)
+            sysd = _c2d_matched(self, Ts)
+            # copy over the system name, inputs, and outputs
+            if copy_names:
+                sysd._copy_names(self, prefix_suffix_name='sampled')
+            return TransferFunction(sysd, name=name, **kwargs)
         sys = (self.num[0][0], self.den[0][0])
         if prewarp_frequency is not None:
             if method in ('bilinear', 'tustin') or \
